@@ -146,6 +146,21 @@ func registerGhostBuiltins() {
 		a := Addr{Prefix: "E$" + typeKey(et), Ref: e.x.tBuf(e.st, t), Idx: add(e.x.tBoff(e.st, t), k.C[0]), T: et}
 		return e.x.load(e.st, a)
 	}
+	specBuiltins["tdata"] = func(e *SpecEnv, n ECall) Val {
+		// tdata(t, "int64"): the tensor's backing store viewed as a slice of that element type
+		v := e.eval(n.Args[0])
+		ts, ok := n.Args[1].(EStr)
+		if !ok {
+			e.fail("tdata needs an element type name")
+		}
+		et := e.x.prog.typeByName(ts.V)
+		if et == nil {
+			e.fail("tdata: unknown type %q", ts.V)
+		}
+		t := tensorRef(v)
+		ln := e.x.tBlen(e.st, t)
+		return Val{T: types.NewSlice(et), C: []string{e.x.tBuf(e.st, t), e.x.tBoff(e.st, t), ln, ln}}
+	}
 	specBuiltins["zeroed"] = func(e *SpecEnv, n ECall) Val {
 		v := e.eval(n.Args[0])
 		return boolVal(eq(e.x.ghostGet(e.st, "t$zeroed", tensorRef(v)), "1"))
